@@ -328,6 +328,12 @@ impl StdBroker {
             }
             Queue(queue::AMQPMethod::Purge(d)) => {
                 let s = self.next_seq(chan);
+                if d.queue == "no-such-queue" {
+                    // what a real broker does with a missing queue: a channel exception
+                    self.open_channels.remove(&chan);
+                    self.closing_channels.insert(chan);
+                    return f(Channel(channel::AMQPMethod::Close(channel::Close { reply_code: 404, reply_text: "NOT_FOUND - no queue 'no-such-queue'".into(), class_id: 50, method_id: 30 })));
+                }
                 if d.nowait {
                     return None;
                 }
